@@ -2,16 +2,20 @@
 
 The scans are loops over runtime data; their full correctness needs a loop-invariant proof (outside this family).
 Decided: the dispatcher, that values are used only through comparisons, and the strictness / tie / fill table of the
-recognised two-pointer skeleton.  An unrecognised skeleton is an ANALYSIS-ERROR, not a violation."""
+two-pointer scans, read off the evaluated loops (scanmodel.py) and compared through finite decision tables over the
+orderings of the compared values (truth.py).  A scan of another shape is an ANALYSIS-ERROR, not a violation."""
 from __future__ import annotations
 
 import ast
 from typing import Dict, List, Optional, Tuple
 
 from .. import sym
-from ..values import Num, Const, Tup, Term, Val, P, veq, arr_param
+from ..sym import C, Rat
+from ..values import Num, Const, Tup, Term, Val, P, Gam, veq, arr_param, gamma, p_not, walk_vals, term_as_num
 from ..model import AnalysisError, FuncInfo
 from ..symeval import Evaluator
+from ..scanmodel import ScanModel, Unrecognised, p_and, roots
+from ..truth import Universe, equivalent
 from .common import show, REPO_RESULT_KIND, SAU, same, inline_except, SCANS
 from .c20 import dispatch_fallthrough
 
@@ -20,335 +24,247 @@ HIGHER = SAU + 'find_closest_higher_equal_element_indices_to_values'
 CLOSEST = SAU + 'find_closest_lower_or_higher_element_indices_to_values'
 DISPATCH = SAU + 'find_closest_element_indices_to_values'
 
-FLIP = {'Lt': 'Gt', 'Gt': 'Lt', 'LtE': 'GtE', 'GtE': 'LtE', 'Eq': 'Eq', 'NotEq': 'NotEq'}
-SYM = {'Lt': '<', 'LtE': '<=', 'Gt': '>', 'GtE': '>='}
-
-
-class Skeleton:
-    """roles of the local variables and the recognised statements of one scan function"""
-
-    def __init__(self, fi: FuncInfo):
-        self.fi = fi
-        self.roles: Dict[str, str] = {}
-        self.errors: List[str] = []
-        self.facts: Dict[str, object] = {}
-        self._recognise()
-
-    def err(self, msg):
-        self.errors.append(msg)
-
-    # ---- helpers
-    def role(self, node) -> Optional[str]:
-        if isinstance(node, ast.Name):
-            return self.roles.get(node.id)
-        return None
-
-    def conjuncts(self, test) -> List[ast.expr]:
-        if isinstance(test, ast.BoolOp) and isinstance(test.op, ast.And):
-            out = []
-            for v in test.values:
-                out += self.conjuncts(v)
-            return out
-        return [test]
-
-    def classify(self, c) -> Tuple[str, tuple]:
-        """('notnone', role) | ('isnone', role) | ('cmp', (role_left, op, role_right)) | ('cmpdiff', ...) | ('truthy', role) | ('other', src)"""
-        if isinstance(c, ast.Compare) and len(c.ops) == 1:
-            op, l, r = c.ops[0], c.left, c.comparators[0]
-            if isinstance(op, (ast.Is, ast.IsNot)) and isinstance(r, ast.Constant) and r.value is None and self.role(l):
-                return ('isnone' if isinstance(op, ast.Is) else 'notnone', (self.role(l),))
-            if isinstance(op, (ast.Eq, ast.NotEq)) and isinstance(r, ast.Constant) and r.value is None and self.role(l):
-                return ('other', (f"== None comparison of {self.role(l)} (element-wise for arrays; identity test expected)",))
-            if type(op).__name__ in SYM and self.role(l) and self.role(r):
-                return ('cmp', (self.role(l), type(op).__name__, self.role(r)))
-            if type(op).__name__ in SYM and isinstance(l, ast.BinOp) and isinstance(r, ast.BinOp) and isinstance(l.op, ast.Sub) and isinstance(r.op, ast.Sub):
-                return ('cmpdiff', ((self.role(l.left), self.role(l.right)), type(op).__name__, (self.role(r.left), self.role(r.right))))
-        if isinstance(c, ast.Name) and self.role(c):
-            return ('truthy', (self.role(c),))
-        if isinstance(c, ast.UnaryOp) and isinstance(c.op, ast.Not) and isinstance(c.operand, ast.Name) and self.role(c.operand):
-            return ('falsy', (self.role(c.operand),))
-        return ('other', (ast.unparse(c),))
-
-    @staticmethod
-    def norm_cmp(t):
-        """normalise a value comparison to (lookup, op, x-side) orientation"""
-        l, op, r = t
-        if l in ('x_val', 'x_next') and r == 'lookup':
-            return ('lookup', FLIP[op], l)
-        return (l, op, r)
-
-    # ---- recognition
-    def _recognise(self):
-        fi = self.fi
-        params = fi.params()
-        if len(params) < 2:
-            return self.err('expected (x, lookup, ...) parameters')
-        px, pl = params[0], params[1]
-        self.fill = params[2] if len(params) > 2 else None
-        body = fi.body_nodes()
-        # role assignment from the initialisation statements
-        loops = []
-        for st in body:
-            if isinstance(st, ast.Assign) and len(st.targets) == 1 and isinstance(st.targets[0], ast.Name):
-                t, v = st.targets[0].id, st.value
-                if isinstance(v, ast.Call) and isinstance(v.func, ast.Name) and v.func.id == 'iter' and len(v.args) == 1 and isinstance(v.args[0], ast.Name):
-                    self.roles[t] = 'x_it' if v.args[0].id == px else ('lookup_it' if v.args[0].id == pl else 'it?')
-                elif isinstance(v, ast.Call) and isinstance(v.func, ast.Name) and v.func.id == 'next' and v.args and isinstance(v.args[0], ast.Name):
-                    it = self.roles.get(v.args[0].id)
-                    if it == 'x_it':
-                        self.roles[t] = 'x_val' if 'x_val' not in self.roles.values() else 'x_next'
-                        if self.roles[t] == 'x_next' and not (len(v.args) == 2 and isinstance(v.args[1], ast.Constant) and v.args[1].value is None):
-                            self.err('the look-ahead element is not fetched with a None sentinel')
-                    elif it == 'lookup_it':
-                        self.roles[t] = 'lookup'
-                elif isinstance(v, ast.Constant) and v.value == 0 and not isinstance(v.value, bool):
-                    self.roles[t] = 'x_idx' if 'x_idx' not in self.roles.values() else 'lookup_idx'
-                elif isinstance(v, ast.Call) and ast.unparse(v.func) in ('np.zeros', 'np.empty', 'numpy.zeros', 'np.full'):
-                    self.roles[t] = 'indices'
-            elif isinstance(st, ast.While):
-                loops.append(st)
-        need = {'x_it', 'lookup_it', 'x_val', 'x_next', 'lookup', 'x_idx', 'lookup_idx', 'indices'}
-        have = set(self.roles.values())
-        if not need <= have:
-            return self.err(f"initialisation not recognised (missing roles {sorted(need - have)})")
-        # counters: which zero-initialised variable indexes x?  decided by use: the one stored into `indices[...] = ...` value side
-        if len(loops) != 2:
-            return self.err(f"expected the prefix loop and the main loop, found {len(loops)} top-level while loops")
-        prefix, main = loops
-        self._fix_counters(prefix, main)
-        self._prefix(prefix)
-        self._main(main)
-        ret = [s for s in body if isinstance(s, ast.Return)]
-        if not (len(ret) == 1 and self.role(ret[0].value) == 'indices'):
-            self.err('the function does not return the index array')
-
-    def _fix_counters(self, prefix, main):
-        """x_idx is the counter that is advanced inside the inner loop; lookup_idx the one used as store index"""
-        stores = [n for n in ast.walk(main) if isinstance(n, ast.Subscript) and isinstance(n.ctx, ast.Store) and self.role(n.value) == 'indices']
-        idx_names = {n.slice.id for n in stores if isinstance(n.slice, ast.Name)}
-        zero = [k for k, v in self.roles.items() if v in ('x_idx', 'lookup_idx')]
-        for k in zero:
-            self.roles[k] = 'lookup_idx' if k in idx_names else 'x_idx'
-        if sorted(self.roles[k] for k in zero) != ['lookup_idx', 'x_idx']:
-            self.err('cannot tell the two counters apart')
-
-    def _advance_lookup(self, stmts) -> bool:
-        """`lookup = next(lookup_it, None)` and `lookup_idx += 1` present, after the stores"""
-        nxt = [s for s in stmts if isinstance(s, ast.Assign) and self.role(s.targets[0]) == 'lookup' and isinstance(s.value, ast.Call)
-               and getattr(s.value.func, 'id', '') == 'next' and len(s.value.args) == 2 and self.role(s.value.args[0]) == 'lookup_it'
-               and isinstance(s.value.args[1], ast.Constant) and s.value.args[1].value is None]
-        inc = [s for s in stmts if isinstance(s, ast.AugAssign) and self.role(s.target) == 'lookup_idx' and isinstance(s.op, ast.Add)
-               and isinstance(s.value, ast.Constant) and s.value.value == 1]
-        return len(nxt) == 1 and len(inc) == 1
-
-    def value_of(self, e) -> str:
-        """normal form of a stored index expression"""
-        if isinstance(e, ast.IfExp):
-            t = self.classify(e.test)
-            fl = ast.unparse(e.test)
-            if isinstance(e.test, ast.Name) and e.test.id == self.fill:
-                return f"fill?{self.value_of(e.body)}:{self.value_of(e.orelse)}"
-            if isinstance(e.test, ast.UnaryOp) and isinstance(e.test.op, ast.Not) and isinstance(e.test.operand, ast.Name) and e.test.operand.id == self.fill:
-                return f"fill?{self.value_of(e.orelse)}:{self.value_of(e.body)}"
-            return f"({fl})?{self.value_of(e.body)}:{self.value_of(e.orelse)}"
-        if self.role(e):
-            return self.role(e)
-        if isinstance(e, ast.BinOp) and isinstance(e.op, ast.Add) and self.role(e.left) == 'x_idx' and isinstance(e.right, ast.Constant) and e.right.value == 1:
-            return 'x_idx+1'
-        if isinstance(e, ast.BinOp) and isinstance(e.op, ast.Add) and self.role(e.right) == 'x_idx' and isinstance(e.left, ast.Constant) and e.left.value == 1:
-            return 'x_idx+1'
-        if isinstance(e, ast.Constant):
-            return repr(e.value)
-        if isinstance(e, ast.UnaryOp) and isinstance(e.op, ast.USub) and isinstance(e.operand, ast.Constant):
-            return repr(-e.operand.value)
-        if isinstance(e, ast.Call) and getattr(e.func, 'id', '') == 'len' and len(e.args) == 1 and isinstance(e.args[0], ast.Name) and e.args[0].id == self.fi.params()[0]:
-            return 'len(x)'
-        return 'expr:' + ast.unparse(e)
-
-    def _store(self, s) -> Optional[str]:
-        if isinstance(s, ast.Assign) and len(s.targets) == 1 and isinstance(s.targets[0], ast.Subscript) and self.role(s.targets[0].value) == 'indices':
-            if self.role(s.targets[0].slice) != 'lookup_idx':
-                self.err(f"result stored at {ast.unparse(s.targets[0].slice)} instead of the query counter")
-            return self.value_of(s.value)
-        return None
-
-    def _prefix(self, lp: ast.While):
-        cs = [self.classify(c) for c in self.conjuncts(lp.test)]
-        self.facts['prefix_cond'] = cs
-        vals = [self._store(s) for s in lp.body]
-        vals = [v for v in vals if v is not None]
-        self.facts['prefix_value'] = vals[0] if len(vals) == 1 else vals
-        if not self._advance_lookup(lp.body):
-            self.err('prefix loop does not advance to the next query exactly once')
-        extra = [s for s in lp.body if not (self._store(s) is not None) and not isinstance(s, (ast.Assign, ast.AugAssign))]
-        if extra:
-            self.err(f"unexpected statement in the prefix loop: {ast.unparse(extra[0])[:60]}")
-
-    def _main(self, lp: ast.While):
-        self.facts['main_cond'] = [self.classify(c) for c in self.conjuncts(lp.test)]
-        inner = [s for s in lp.body if isinstance(s, ast.While)]
-        if len(inner) != 1:
-            return self.err('main loop: expected exactly one inner advance loop')
-        adv = inner[0]
-        self.facts['advance_cond'] = [self.classify(c) for c in self.conjuncts(adv.test)]
-        # body of the advance loop
-        carried = False
-        ok_next = ok_inc = False
-        for s in adv.body:
-            if isinstance(s, ast.Assign) and self.role(s.targets[0]) == 'x_val' and self.role(s.value) == 'x_next':
-                carried = True
-            elif isinstance(s, ast.Assign) and self.role(s.targets[0]) == 'x_next' and isinstance(s.value, ast.Call) and getattr(s.value.func, 'id', '') == 'next' \
-                    and len(s.value.args) == 2 and self.role(s.value.args[0]) == 'x_it' and isinstance(s.value.args[1], ast.Constant) and s.value.args[1].value is None:
-                ok_next = True
-            elif isinstance(s, ast.AugAssign) and self.role(s.target) == 'x_idx' and isinstance(s.op, ast.Add) and isinstance(s.value, ast.Constant) and s.value.value == 1:
-                ok_inc = True
-            elif isinstance(s, ast.If) and all(isinstance(b, ast.Break) for b in s.body) and not s.orelse:
-                c = self.classify(s.test)
-                if c != ('isnone', ('x_next',)):
-                    self.err(f"advance loop: early exit on {c}")
-            else:
-                self.err(f"unexpected statement in the advance loop: {ast.unparse(s)[:60]}")
-        if not (ok_next and ok_inc):
-            self.err('advance loop does not step the element and its index together')
-        self.facts['carries_x_val'] = carried
-        # result assignment after the inner loop
-        after = lp.body[lp.body.index(adv) + 1:]
-        before = lp.body[:lp.body.index(adv)]
-        if any(not isinstance(s, ast.Expr) for s in before):
-            self.err('statements before the advance loop in the main loop')
-        self.facts['result'] = self._result(after)
-        if not self._advance_lookup(after):
-            self.err('main loop does not advance to the next query exactly once')
-
-    def _result(self, stmts):
-        out = []
-        for s in stmts:
-            v = self._store(s)
-            if v is not None:
-                out.append(('always', v))
-            elif isinstance(s, ast.If):
-                out.append(('if', self.classify(s.test), self._result(s.body), self._result(s.orelse)))
-        return out
-
-
-TABLE = {
-    'lower': {
-        'prefix_cond': [('notnone', ('lookup',)), ('cmp', ('lookup', 'Lt', 'x_val'))],
-        'prefix_value': 'fill?x_idx:-1',
-        'main_cond': [('notnone', ('lookup',))],
-        'advance_cond': [('notnone', ('x_next',)), ('cmp', ('lookup', 'GtE', 'x_next'))],
-        'result': [('always', 'x_idx')],
-    },
-    'higher': {
-        'prefix_cond': [('notnone', ('lookup',)), ('cmp', ('lookup', 'LtE', 'x_val'))],
-        'prefix_value': 'x_idx',
-        'main_cond': [('notnone', ('lookup',))],
-        'advance_cond': [('notnone', ('x_next',)), ('cmp', ('lookup', 'Gt', 'x_next'))],
-        'result': [('if', ('isnone', ('x_next',)), [('always', 'fill?x_idx:len(x)')], [('always', 'x_idx+1')])],
-    },
-    'closest': {
-        'prefix_cond': [('notnone', ('lookup',)), ('cmp', ('lookup', 'LtE', 'x_val'))],
-        'prefix_value': 'x_idx',
-        'main_cond': [('notnone', ('lookup',))],
-        'advance_cond': [('notnone', ('x_next',)), ('cmp', ('lookup', 'Gt', 'x_next'))],
-        'result': [('if', ('isnone', ('x_next',)), [('always', 'x_idx')],
-                    [('if', ('cmpdiff', (('lookup', 'x_val'), 'LtE', ('x_next', 'lookup'))), [('always', 'x_idx')], [('always', 'x_idx+1')])])],
-        'carries_x_val': True,
-    },
-}
 WHY = {
     'prefix_cond': 'queries below the first element (strictness decides a query equal to the first element)',
     'prefix_value': 'value for queries outside the range on the low side (fill_not_valid selection)',
     'main_cond': 'the main loop runs until the queries are exhausted (sentinel compared by identity)',
     'advance_cond': 'advance while the next element is still <= / < the query (strictness decides a query equal to an element)',
     'result': 'index written for the query (exhausted array, fill_not_valid selection, tie -> lower)',
-    'carries_x_val': 'the current element value is carried along for the distance comparison',
+    'updates': 'every iteration advances its sequence exactly once: value and counter together',
 }
+def _decide_table(ctx, m: ScanModel, loop, expected: Val, rule, label, fi, construct, fixed=None, allowed_terms=()):
+    """the value stored for the current query, as a decision table over the orderings / flags the code tests, against the
+    documented value"""
+    stores = m.stores(loop)
+    if not stores:
+        return ctx.fail(rule, label, 'no result is stored for the query in this loop', fi.loc(), fi.qualname, construct)
+    u = Universe()
+    u.collect(expected)
+    nf, nb = len(u.forms), len(u.bools)
+    guards = [m.guard_in(loop, e) for e in stores]
+    for g, e in zip(guards, stores):
+        u.collect(g)
+        u.collect(e.data['value'])
+    extra = [sym.show(f) + ' ? 0' for f in u.forms[nf:]] + u.bools[nb:]
+    fx = {('b', k): v for k, v in (fixed or {}).items() if k in u.bool_vals}
+    n = 0
+    for asg in u.assignments(fx):
+        n += 1
+        live = [e for g, e in zip(guards, stores) if u.pred(g, asg)]
+        want = u.value(expected, asg)
+        if not live:
+            if extra:
+                return ctx.unknown(rule, label, f"no store when {u.show(asg)} (conditions outside the documented vocabulary: {extra[:3]})", fi.loc(), fi.qualname, construct)
+            return ctx.fail(rule, label, f"nothing is stored when {u.show(asg)}", fi.loc(), fi.qualname, construct)
+        got = u.value(live[-1].data['value'], asg)
+        if not (isinstance(got, Rat) and isinstance(want, Rat) and got == want):
+            if extra:
+                return ctx.unknown(rule, label, f"differs when {u.show(asg)}, under conditions outside the documented vocabulary {extra[:3]}", fi.loc(), fi.qualname, construct)
+            return ctx.fail(rule, label, f"when {u.show(asg)}: code stores {show(got, 80) if not isinstance(got, Rat) else sym.show(got)}, "
+                            f"documented {sym.show(want) if isinstance(want, Rat) else want}", f"{fi.file}:{getattr(live[-1].node, 'lineno', fi.node.lineno)}",
+                            fi.qualname, construct)
+    return ctx.ok(rule, label, f"{len(stores)} guarded store(s), {n} cases over {len(u.forms)} orderings and {len(u.bools)} flags", fi.loc(), fi.qualname, construct)
 
 
-def _fill_branch(res):
-    """the part of a result table that matters when fill_not_valid is True"""
+def _cond(ctx, got: Val, expected: List[Val], rule, label, fi, construct):
+    last = None
+    for exp in expected:
+        verdict, detail = equivalent(got, exp)
+        if verdict:
+            return ctx.ok(rule, label, f"{got}  ==  {exp}  ({detail})", fi.loc(), fi.qualname, construct)
+        last = (verdict, detail, exp)
+    verdict, detail, exp = last
+    if verdict is None:
+        return ctx.unknown(rule, label, f"code: {got}\nexpected: {exp}\n{detail}", fi.loc(), fi.qualname, construct)
+    return ctx.fail(rule, label, f"code:     {got}\nexpected: {exp}\n{detail}", fi.loc(), fi.qualname, construct)
+
+
+def _sentinel_tests(vals) -> List[str]:
+    """truthiness / equality tests on an element value (0.0 is a legitimate element; only identity with None is a sentinel test)"""
     out = []
-    for item in res or []:
-        if item[0] == 'always':
-            v = item[1]
-            out.append(('always', v[5:].split(':')[0] if isinstance(v, str) and v.startswith('fill?') else v))
-        elif item[0] == 'if':
-            out.append(('if', item[1], _fill_branch(item[2]), _fill_branch(item[3])))
-    return out
-
-
-def norm(facts):
-    out = dict(facts)
-    for k in ('prefix_cond', 'advance_cond', 'main_cond'):
-        out[k] = [(c[0], Skeleton.norm_cmp(c[1])) if c[0] == 'cmp' else c for c in facts.get(k, [])]
+    for v in vals:
+        for t in walk_vals(v):
+            if isinstance(t, P) and t.op == 'truthy' and not (isinstance(t.args[0], Term) and t.args[0].head == 'param'):
+                out.append(str(t))
+            if isinstance(t, P) and t.op.startswith('cmp:') and any(isinstance(a, Const) and a.v is None for a in t.args):
+                out.append(str(t))
     return out
 
 
 def check_scans(ctx, kinds=('lower', 'higher', 'closest'), fill_true_only=False):
-    ctx.rule('C10.3', 'tie / strictness table of the recognised two-pointer skeleton: lower - prefix <, advance <=, result x_idx, invalid prefix value 0 / -1 by '
-                      'fill_not_valid; higher - prefix <=, advance <, result x_idx+1, or x_idx / len(x) when x is exhausted; closest - prefix <=, advance < with the '
-                      'current value carried, tie <= -> lower; sentinels (None) are tested by identity, never by truthiness; no extra condition weakens a comparison')
+    ctx.rule('C10.3', 'strictness / tie / fill table of the two-pointer scans, decided on the evaluated loops (not their text): lower - prefix <, advance <=, result '
+                      'x_idx, invalid prefix value 0 / -1 by fill_not_valid; higher - prefix <=, advance <, result x_idx+1, or x_idx / len(x) when x is exhausted; '
+                      'closest - prefix <=, advance < with the current value carried, tie <= -> lower; each condition and stored value is compared with the '
+                      'documented one under every ordering of the compared values; every iteration advances value and counter together; sentinels (None) are '
+                      'tested by identity, never by truthiness')
     ctx.rule('C10.2', 'element values of x and lookup are used only in comparisons (and, for closest, in the two differences that are compared); every stored '
-                      'result is built from integer counters, len(x), 0, -1')
-    for kind, q in (('lower', LOWER), ('higher', HIGHER), ('closest', CLOSEST)):
+                      'result is built from the array counter, len(x), 0, -1; the result has one slot per query')
+    for kind, qn in (('lower', LOWER), ('higher', HIGHER), ('closest', CLOSEST)):
         if kind not in kinds:
             continue
-        fi = ctx.prog.func(q)
-        sk = Skeleton(fi)
-        if sk.errors:
-            # distinguish "different algorithm" from "recognised skeleton with a deviating statement"
-            fatal = [e for e in sk.errors if 'not recognised' in e or 'expected the prefix loop' in e or 'expected (x, lookup' in e or 'expected exactly one inner' in e]
-            if fatal:
-                raise AnalysisError(f"C10.3: {fi.name}: two-pointer skeleton not recognised: {fatal[0]}")
-            for e in sk.errors:
-                ctx.fail('C10.3', f"{kind}: skeleton statement", e, fi.loc(), fi.qualname, f"{kind}:skeleton:{e[:40]}")
-        facts = norm(sk.facts)
-        want = TABLE[kind]
-        for key, expected in want.items():
-            got = facts.get(key)
-            if fill_true_only and kind == 'lower' and key == 'prefix_cond':
-                # with filling on, a query equal to the first element gets index 0 from the prefix loop as well as from the main loop
-                if got in (expected, [('notnone', ('lookup',)), ('cmp', ('lookup', 'LtE', 'x_val'))]):
-                    got = expected
-            if fill_true_only and isinstance(got, str) and got.startswith('fill?') and isinstance(expected, str) and expected.startswith('fill?'):
-                got, expected = got[5:].split(':')[0], expected[5:].split(':')[0]
-            if fill_true_only and key == 'result':
-                got, expected = _fill_branch(got), _fill_branch(expected)
-            ctx.check(got == expected, 'C10.3', f"{kind}: {WHY[key]}", f"code:     {got}\nexpected: {expected}", fi.loc(), fi.qualname, f"{kind}:{key}")
-        ctx.sample({'rule': 'C10.3', 'scan': kind, 'prefix': str(facts.get('prefix_cond')), 'advance': str(facts.get('advance_cond')), 'result': str(facts.get('result'))[:200]})
-        # C10.2 taint: value roles only inside Compare nodes / role-to-role copies
-        value_names = {k for k, v in sk.roles.items() if v in ('x_val', 'x_next', 'lookup')}
-        parents = {}
-        for n in ast.walk(fi.node):
-            for c in ast.iter_child_nodes(n):
-                parents[c] = n
-        bad = []
-        for n in ast.walk(fi.node):
-            if isinstance(n, ast.Name) and n.id in value_names and isinstance(n.ctx, ast.Load):
-                p = parents.get(n)
-                okp = isinstance(p, ast.Compare) or (isinstance(p, ast.BinOp) and isinstance(p.op, ast.Sub) and isinstance(parents.get(p), ast.Compare)) \
-                    or (isinstance(p, ast.Assign) and isinstance(p.targets[0], ast.Name) and p.targets[0].id in value_names) \
-                    or (isinstance(p, ast.BoolOp)) or (isinstance(p, ast.UnaryOp) and isinstance(p.op, ast.Not)) or isinstance(p, (ast.While, ast.If))
-                if not okp:
-                    bad.append(f"{n.id} at line {n.lineno} in {type(p).__name__}")
-        ctx.check(not bad, 'C10.2', f"{kind}: element values flow only into comparisons", f"{bad[:4]}", fi.loc(), fi.qualname, f"{kind}:taint")
-        stored = []
-        for n in ast.walk(fi.node):
-            if isinstance(n, ast.Assign) and isinstance(n.targets[0], ast.Subscript) and sk.role(n.targets[0].value) == 'indices':
-                stored.append(sk.value_of(n.value))
-        okv = all(all(part in ('x_idx', 'x_idx+1', 'len(x)', '0', '-1') for part in v.replace('fill?', '').split(':')) for v in stored)
-        ctx.check(okv and stored, 'C10.2', f"{kind}: every stored index is built from counters only", f"{stored}", fi.loc(), fi.qualname, f"{kind}:values")
-        # sentinel rule: truthiness tests on value roles are forbidden (0.0 is a legitimate element)
-        truthy = [c for key in ('prefix_cond', 'advance_cond', 'main_cond') for c in facts.get(key, []) if c[0] in ('truthy', 'falsy')]
-        for n in ast.walk(fi.node):
-            if isinstance(n, (ast.If, ast.While, ast.IfExp)):
-                for c in sk.conjuncts(n.test):
-                    cl = sk.classify(c)
-                    if cl[0] in ('truthy', 'falsy') and cl[1][0] in ('x_val', 'x_next', 'lookup'):
-                        truthy.append(cl)
+        fi = ctx.prog.func(qn)
+        try:
+            m = ScanModel(ctx.prog, fi, opaque_kind=REPO_RESULT_KIND)
+        except Unrecognised as ex:
+            raise AnalysisError(f"C10.3: {fi.name}: two-pointer scan not recognised: {ex}")
+        for msg in m.issues:
+            ctx.fail('C10.3', f"{kind}: initialisation", msg, fi.loc(), fi.qualname, f"{kind}:init:{msg[:30]}")
+        Pf, Mn, Ad = m.prefix, m.main, m.adv
+        one = Num(C(1))
+        fixed = {str(m.fill_true()): True} if (fill_true_only and m.fill is not None) else None
+        # ---------------- prefix loop
+        lk = m.entry(Pf, m.lkn)
+        strict = [m.lt(lk, m.X0)] if kind == 'lower' else [m.le(lk, m.X0)]
+        if kind == 'lower' and fill_true_only:
+            strict.append(m.le(lk, m.X0))       # with filling on, a query equal to the first element gets index 0 from either loop
+        _cond(ctx, Pf['cond'], [p_and(m.notnone(lk), s_) for s_ in strict], 'C10.3', f"{kind}: {WHY['prefix_cond']}", fi, f"{kind}:prefix_cond")
+        zero, minus1 = Num(C(0)), Num(C(-1))
+        pv = gamma(m.fill_true(), zero, minus1) if kind == 'lower' else zero
+        _decide_table(ctx, m, Pf, pv, 'C10.3', f"{kind}: {WHY['prefix_value']}", fi, f"{kind}:prefix_value", fixed)
+        # ---------------- main loop and its advance loop
+        lkm = m.entry(Mn, m.lkn)
+        _cond(ctx, Mn['cond'], [m.notnone(lkm)], 'C10.3', f"{kind}: {WHY['main_cond']}", fi, f"{kind}:main_cond")
+        nx = m.entry(Ad, m.nxt)
+        lka = m.entry(Ad, m.lkn)
+        adv = m.le(nx, lka) if kind == 'lower' else m.lt(nx, lka)
+        _cond(ctx, Ad['cond'], [p_and(m.notnone(nx), adv)], 'C10.3', f"{kind}: {WHY['advance_cond']}", fi, f"{kind}:advance_cond")
+        n_out, p_out = m.end(Mn, m.nxt), m.num(m.end(Mn, m.p))
+        if kind == 'lower':
+            rv = p_out
+        elif kind == 'higher':
+            rv = gamma(m.isnone(n_out), gamma(m.fill_true(), p_out, Num(m.Lx)), Num(p_out.r + C(1)))
+        else:
+            if m.cur is None:
+                ctx.fail('C10.3', f"{kind}: the current element value is carried along for the distance comparison",
+                         f"names holding the first element: {m.n_cur}; none is re-assigned in the advance loop", fi.loc(), fi.qualname, f"{kind}:carries_x_val")
+                rv = None
+            else:
+                c_out = m.num(m.end(Mn, m.cur))
+                lkn_, nn = m.num(lkm), m.num(n_out)
+                tie = p_not(P('<', Num(nn.r - lkn_.r), Num(lkn_.r - c_out.r)))       # lookup - x_val <= x_next - lookup
+                rv = gamma(m.isnone(n_out), p_out, gamma(tie, p_out, Num(p_out.r + C(1))))
+        if rv is not None:
+            _decide_table(ctx, m, Mn, rv, 'C10.3', f"{kind}: {WHY['result']}", fi, f"{kind}:result", fixed)
+        # ---------------- updates
+        problems = []
+
+        def is_next(v, it) -> bool:
+            return isinstance(v, Term) and v.head == 'lib:next' and len(v.args) == 2 and veq(v.args[0], it) and isinstance(v.args[1], Const) and v.args[1].v is None
+
+        def plus_one(loop, name) -> bool:
+            a, b = m.ev.as_num(m.end(loop, name)), m.ev.as_num(m.entry(loop, name))
+            return a is not None and b is not None and a.r == b.r + C(1)
+        for loop, lname in ((Pf, 'prefix loop'), (Mn, 'main loop')):
+            if not is_next(m.end(loop, m.lkn), m.l_it):
+                problems.append(f"{lname}: the query is not replaced by the next one (with a None sentinel): {show(m.end(loop, m.lkn), 60)}")
+            if not plus_one(loop, m.q):
+                problems.append(f"{lname}: the query counter does not advance by one: {show(m.end(loop, m.q), 60)}")
+            for e in m.stores(loop):
+                if not veq(m.ev.as_num(e.data['index']), m.ev.as_num(m.entry(loop, m.q))):
+                    problems.append(f"{lname}: result stored at {show(e.data['index'], 40)} instead of the query counter")
+        for nm in (m.nxt, m.p) + ((m.cur,) if m.cur else ()):
+            if nm in Pf['names']:
+                problems.append(f"prefix loop modifies {nm}")
+        if not is_next(m.end(Ad, m.nxt), m.x_it):
+            problems.append(f"advance loop: the look-ahead element is not replaced by the next one (with a None sentinel): {show(m.end(Ad, m.nxt), 60)}")
+        if not plus_one(Ad, m.p):
+            problems.append(f"advance loop: the array counter does not advance by one: {show(m.end(Ad, m.p), 60)}")
+        if kind == 'closest' and m.cur is not None and not veq(m.end(Ad, m.cur), m.entry(Ad, m.nxt)):
+            problems.append(f"advance loop: the current element does not become the previous look-ahead element: {show(m.end(Ad, m.cur), 60)}")
+        if m.lkn in Ad['names'] or m.q in Ad['names']:
+            problems.append('advance loop modifies the query or its counter')
+        # nothing changes the pointers between the start of a main iteration and the advance loop, or after it
+        for nm in (m.nxt, m.p, m.lkn, m.q) + ((m.cur,) if m.cur else ()):
+            if not veq(Ad['pre'].env.get(nm), m.entry(Mn, nm)):
+                problems.append(f"main loop: {nm} is modified before the advance loop")
+        for nm in (m.nxt, m.p) + ((m.cur,) if m.cur else ()):
+            v = m.end(Mn, nm)
+            t = v if isinstance(v, Term) else _single(v)
+            if not (isinstance(t, Term) and t.head == 'loopvar' and t.uid == Ad['lid'] and t.args[0].v == nm and t.args[1].v == 'out'):
+                problems.append(f"main loop: {nm} is modified after the advance loop: {show(v, 60)}")
+        if m.stores(Ad):
+            problems.append('advance loop stores into the result')
+        # breaks: only where the loop would stop anyway, and after both updates
+        for e in m.events_in(Ad, ('break', 'continue')) + m.events_in(Pf, ('break', 'continue')) + m.events_in(Mn, ('break', 'continue')):
+            loop = Ad if e.loops[-1].lid == Ad['lid'] else None
+            if loop is None or e.kind != 'break':
+                raise AnalysisError(f"C10.3: {fi.name}: {e.kind} outside the advance loop at line {getattr(e.node, 'lineno', '?')}: scan not recognised")
+            g = m.guard_in(Ad, e)
+            dead, _ = equivalent(p_and(g, Ad['cond']), Const(False))
+            if dead:
+                continue
+            env = e.data.get('env', {})
+            done = all(veq(env.get(nm), m.end(Ad, nm)) for nm in (m.nxt, m.p) + ((m.cur,) if m.cur else ()))
+            stops, why = equivalent(p_and(g, m.next_state(Ad, Ad['cond'])), Const(False))
+            if not done:
+                problems.append(f"advance loop: break at line {getattr(e.node, 'lineno', '?')} before value and counter are both advanced")
+            elif stops is None:
+                ctx.unknown('C10.3', f"{kind}: early exit of the advance loop", f"break when {g}: {why}", fi.loc(), fi.qualname, f"{kind}:break")
+            elif not stops:
+                problems.append(f"advance loop: break when {g}, where the loop would have continued ({why})")
+        ctx.check(not problems, 'C10.3', f"{kind}: {WHY['updates']}", '; '.join(problems[:4]), fi.loc(), fi.qualname, f"{kind}:updates")
+        # ---------------- result array, returned value, sentinels, taint
+        alloc = m.result_alloc()
+        alen = term_as_num(alloc, True).length if isinstance(alloc, Term) else None
+        ctx.check(alen is not None and alen == m.Lq, 'C10.2', f"{kind}: one result slot per query", f"{alloc}", fi.loc(), fi.qualname, f"{kind}:alloc")
+        ctx.check(not m.resized, 'C10.2', f"{kind}: the scan runs over every element of x and every query (no de-duplication / filtering in front of it)",
+                  f"{m.resized}", fi.loc(), fi.qualname, f"{kind}:resized")
+        ctx.check(isinstance(alloc, Term) and all(veq(r, alloc) for r in roots(m.result)), 'C10.3', f"{kind}: the function returns the index array", show(m.result, 80), fi.loc(), fi.qualname, f"{kind}:return")
+        conds = [Pf['cond'], Mn['cond'], Ad['cond']] + [g for e in m.ev.events for g in e.guard]
+        truthy = sorted(set(_sentinel_tests(conds)))
         ctx.check(not truthy, 'C10.3', f"{kind}: the None sentinel is tested by identity, not by truthiness (an element equal to 0 is a legitimate value)",
                   f"{truthy[:3]}", fi.loc(), fi.qualname, f"{kind}:sentinel")
+        bad = []
+        allowed = {str(t) for t in (m.end(Mn, m.p), m.entry(Pf, m.p) if m.p in Pf['entry'] else None) if t is not None}
+        for e in m.stores(Pf) + m.stores(Mn):
+            for t in walk_vals(e.data['value']):
+                if isinstance(t, P):
+                    break
+                if isinstance(t, Term) and t.head in ('lib:next', 'loopvar') and not (t.head == 'loopvar' and t.args[0].v == m.p):
+                    if not _inside_pred(e.data['value'], t):
+                        bad.append(f"{show(t, 40)} in the value stored at line {getattr(e.node, 'lineno', '?')}")
+        for e in m.ev.events:
+            if e.kind in ('lib', 'call', 'method', 'apply') and e.loops and e.data.get('name') not in ('builtins.next', 'builtins.len'):
+                bad.append(f"{e.data.get('name') or getattr(e.data.get('callee'), 'name', e.kind)} called inside the scan at line {getattr(e.node, 'lineno', '?')}")
+        ctx.check(not bad, 'C10.2', f"{kind}: element values flow only into comparisons; stored indices are built from counters only", f"{bad[:4]}",
+                  fi.loc(), fi.qualname, f"{kind}:taint")
+        ctx.sample({'rule': 'C10.3', 'scan': kind, 'prefix': str(Pf['cond']), 'advance': str(Ad['cond']),
+                    'result': [f"{m.guard_in(Mn, e)} -> {show(e.data['value'], 50)}" for e in m.stores(Mn)][:4],
+                    'roles': {'query': m.lkn, 'look-ahead': m.nxt, 'current': m.cur, 'array counter': m.p, 'query counter': m.q, 'result': m.ind}})
+
+
+def _single(v):
+    from ..scanmodel import _single_val_term
+    return _single_val_term(v) if isinstance(v, Num) else None
+
+
+def _inside_pred(value, term) -> bool:
+    """does `term` occur in `value` only inside the condition of a conditional (where it is compared, not stored)?"""
+    def outside(x) -> bool:
+        if x is term or (isinstance(x, Term) and veq(x, term)):
+            return True
+        if isinstance(x, Gam):
+            return outside(x.a) or outside(x.b)
+        if isinstance(x, Num):
+            for a in x.r.atoms():
+                if atom_outside(a):
+                    return True
+            return False
+        if isinstance(x, Term):
+            return any(outside(a) for a in x.args if isinstance(a, Val))
+        return False
+
+    def atom_outside(a) -> bool:
+        head, args = sym.ATOMS.head(a), sym.ATOMS.args(a)
+        if head == 'gamma':
+            return any(atom_outside(b) for r in args[1:] for b in r.atoms())
+        for arg in args:
+            if isinstance(arg, Val) and outside(arg):
+                return True
+            if isinstance(arg, Rat) and any(atom_outside(b) for b in arg.atoms()):
+                return True
+        return False
+    return not outside(value)
 
 
 def check_dispatcher(ctx):
